@@ -618,6 +618,14 @@ func (r *Run) scanStatic(fr *Frame, f *ssa.Function, c *ssa.CallCommon, ws *writ
 			if fa, ok := c.Args[0].(*ssa.FieldAddr); ok {
 				if mon := r.monitorFor(fa); mon != nil {
 					for _, comp := range r.monitorComps(mon) {
+						if comp == "E.*" {
+							for c := range r.compSorts {
+								if strings.HasPrefix(c, "E.") {
+									ws.comps[c] = true
+								}
+							}
+							continue
+						}
 						ws.comps[comp] = true
 					}
 				}
